@@ -60,6 +60,22 @@ class Built:
     pass
 
 
+def declare(objs, r):
+    if r[0] == 'joint':
+        add_fixed_joint(objs[r[1]], objs[r[2]])
+    elif r[0] == 'gear':
+        add_gear_mating(objs[r[1]], objs[r[2]], r[3])
+    elif r[0] == 'worm':
+        add_worm_gear_mating(objs[r[1]], objs[r[2]], r[3])
+
+
+def all_rels(spec):
+    """every relation declared during the life of the spec's objects, in order: those declared before the
+    powertrain is assembled, then those re-declared by `redeclare` ops (same pair, same direction — the element
+    tuple is unchanged, ratio / efficiency / roles are those of the last declaration)"""
+    return list(spec['rels']) + [op['rel'] for op in spec.get('ops', []) if op['op'] == 'redeclare']
+
+
 class Runaway(Exception):
     """a run recorded far more instants than T/dt allows (the check must terminate whatever the code does)"""
 
@@ -135,12 +151,7 @@ def build(spec):
             raise ValueError(f'unknown element type {t}')
         objs.append(o)
     for r in spec['rels']:
-        if r[0] == 'joint':
-            add_fixed_joint(objs[r[1]], objs[r[2]])
-        elif r[0] == 'gear':
-            add_gear_mating(objs[r[1]], objs[r[2]], r[3])
-        elif r[0] == 'worm':
-            add_worm_gear_mating(objs[r[1]], objs[r[2]], r[3])
+        declare(objs, r)
     b.objs = objs
     b.motor = motor
     b.pt = Powertrain(motor)
@@ -299,6 +310,8 @@ def simulate(spec, b=None):
             tr['build_msg'] = str(ex)[:200]
             return tr, None
     pt, E, motor = b.pt, b.E, b.motor
+    tr['sl_at_build'] = bool(pt.self_locking)
+    tr['ids_at_build'] = [id(e) for e in pt.elements]
     solver = Solver(pt)
     lock = LockLog()
     lock.attach(solver)
@@ -329,6 +342,8 @@ def simulate(spec, b=None):
                 lock.attach(solver)
             elif op['op'] == 'pwm':
                 motor.pwm = op['v']
+            elif op['op'] == 'redeclare':
+                declare(b.objs, op['rel'])
             elif op['op'] == 'snap':
                 # the user looks at the results in the middle of a schedule (read-only: must not influence what follows)
                 if len(pt.time) >= 2:
@@ -361,6 +376,7 @@ def observe(b, solver, lock):
     o['types'] = [type(e).__name__ for e in E]
     o['names'] = [e.name for e in E]
     o['sl'] = bool(pt.self_locking)
+    o['ids'] = [id(e) for e in pt.elements]
     o['keys'] = [{k: len(v) for k, v in e.time_variables.items()} for e in E]
     els = []
     bad_kind = []
@@ -761,7 +777,7 @@ def pipe_line(spec, tr, b):
             R(o.pressure_angle.cos()) if worm else '1', R(o.helix_angle.tan()) if worm else '0',
             '1' if e.get('module') else '0', '1' if e.get('fw') else '0', '1' if (e.get('E') and t in ('spur', 'helical')) else '0',
             '1' if e.get('d') else '0']))
-    decls = ';'.join(','.join([r[0], str(r[1]), str(r[2])] + ([R(r[3])] if len(r) > 3 else [])) for r in spec['rels'])
+    decls = ';'.join(','.join([r[0], str(r[1]), str(r[2])] + ([R(r[3])] if len(r) > 3 else [])) for r in all_rels(spec))
     inertias = ','.join([siR('InertiaMoment', spec['motor']['J'])] + [siR('InertiaMoment', e['J']) for e in spec['elems']])
     cfg = [t for t in model_cfg(spec, tr) if not t.startswith(('J0=', 'links=', 'sl='))]
     rest = [f"pos={siR('AngularPosition', spec['init']['pos'])} speed={siR('AngularSpeed', spec['init']['speed'])}"]
